@@ -273,6 +273,10 @@ def templates():
         T.append([L, ("fndecl", "e", [("v", INT)], INT, [mark(v_ := 1), ("return", V("v"))]), fin(("at", ("array", [("call", V("e"), [I(10)]), I(20), I(30)]), I(idx)))])
         T.append([L, ("set", "a", ("array", [I(10), I(20), I(30)])), fin(("at", V("a"), I(idx)))])
         T.append([L, fin(("at", ("s", "héllo"), I(idx)))])
+    # a repeat array with a non-constant value and a constant length, indexed by a constant (every index -len..len-1 is valid)
+    for idx in (0, 2, -1, -3, 3, -4):
+        T.append([L, ("fndecl", "e", [("v", INT)], INT, [mark(1), ("return", V("v"))]), fin(("at", ("repeat", ("call", V("e"), [I(10)]), I(3)), I(idx)))])
+        T.append([L, ("set", "m", ("mut", INT, I(7))), ("set", "n", I(3)), ("fndecl", "f", [], ANY, [("return", ("at", ("repeat", ("pre", "deref", V("m")), V("n")), I(idx)))]), fin(("call", V("f"), []))])
     for n in (0, 2, -1):
         T.append([L, fin(("repeat", I(7), I(n)))])
         T.append([L, ("fndecl", "e", [("v", INT)], INT, [mark(1), ("return", V("v"))]), fin(("repeat", ("call", V("e"), [I(7)]), I(n)))])
